@@ -279,7 +279,7 @@ def c40(res, tier, seed):
     res.exhaustive = True
     env = {"GOMAXPROCS": "2"}
     vlib.replay_tour(res, b, "gen", tour, key=_c40_key, timeout=3000, env=env)
-    n = 25 if q else 250
+    n = 15 if q else 250
     # C->S.  A nondeterministic generator never repeats an observation exactly, so "reproduced" means here: the same plan,
     # executed again, yields again a history that the specification rejects.
     gen = os.path.join(scratch(), "gen-gen-%d.ndjson" % seed)
